@@ -86,6 +86,112 @@ def faults(eng):
                          "note": "panics and swallowed errors after an injected KeyCompare failure (findNode's binary search ignores the error; validateNode panics) are counted under outcome_panic / outcome_ok: C12 speaks about calls that return an error"},
             "samples": [recs[0]] if recs else []}
 
+def sched_fails(recs, texts):
+    fails = []; stats = collections.Counter(); peak = 0; orders = set()
+    for d in recs:
+        stats["runs_" + d["mode"]] += 1
+        peak = max(peak, d.get("peak", 0))
+        if d["mode"] == "schedule":
+            orders.add(d["hist"] + "/" + ",".join(d.get("order") or []))
+        for p in d["problems"]:
+            tag = "durable"
+            fails.append((texts.get(d["hist"], ""), Fail(tag, d["index"], "%s run (writes=%d, failing=%s, seed=%s): %s" %
+                          (d["mode"], d["writes"], d.get("fail_names"), d.get("seed"), p[:300]),
+                          {"engine": "sched", "mode": d["mode"], "history": d["hist"], "fail_names": d.get("fail_names")})))
+            break
+    stats["peak_concurrent_stores"] = peak
+    stats["distinct_completion_orders"] = len(orders)
+    return fails, stats, orders
+
+def sched(eng):
+    """C03: completion orders and failing subsets of the concurrent Store calls of MakeRoot"""
+    rng = random.Random(eng.seed * 11 + 3)
+    n = 40 if eng.tier == "quick" else 400
+    hs = gen.prof_sched(rng, n, eng.tier)
+    corpus = eng.corpus()
+    texts = {}
+    for i, h in enumerate(hs):
+        h.id = "%s-s%d-%d" % (h.id, eng.seed, i); texts[h.id] = h.text()
+    for c in corpus:
+        texts[c.split("\n")[0].split()[1]] = c
+    recs = run_mode(eng, "sched", "".join(corpus) + "".join(h.text() for h in hs), "sched")
+    fails, stats, orders = sched_fails(recs, texts)
+    shapes = collections.Counter(t for h in hs for t in h.tags)
+    writes = collections.Counter(min(d["writes"], 50) // 10 * 10 for d in recs if d["mode"] == "control")
+    return {"fails": fails, "evaluations": len(recs), "distinct": list(orders) + ["%s/%s" % (d["hist"], d.get("fail_names")) for d in recs if d["mode"] == "fault"],
+            "coverage": {"sched_histories": len(hs), "runs": dict(stats), "tree_shapes": dict(shapes), "writes_per_persist_histogram(by 10)": dict(writes)},
+            "samples": [r for r in recs if r["mode"] != "control"][:2]}
+
+def minimise_sched(eng, text, fail):
+    return text, fail
+
+def replay_sched(eng, d):
+    text = d["header"] + "\n" + "\n".join(d["ops"]) + "\n"
+    recs = run_mode(eng, "sched", text, "replay")
+    fails, _, _ = sched_fails(recs, {d["header"].split()[1]: text})
+    if fails:
+        print("reproduced: %s" % fails[0][1].msg[:300]); print("VIOLATION property=%s replay=%s" % (eng.pid, d.get("path", ""))); return 1
+    print("not reproduced"); return 0
+
+def run_cmd(eng, args, timeout=3000):
+    p = subprocess.run("%s %s" % (eng.go_bin, args), shell=True, stdout=subprocess.PIPE, stderr=subprocess.PIPE, timeout=timeout)
+    if p.returncode:
+        raise RuntimeError("mastrun %s failed: %s" % (args, p.stderr.decode()[-2000:]))
+    return [json.loads(l) for l in p.stdout.decode("latin-1").split("\n") if l.strip()]
+
+def be_fails(recs, engine, args):
+    fails = []
+    for d in recs:
+        if d["problems"]:
+            fails.append(("", Fail("backend" if engine == "backend" else "crash", d.get("k", 0),
+                          "%s backend, %s (name %s, %d bytes%s): %s" % (d["backend"], d["case"], d["name"], d["len"],
+                           (", cut at byte %d, %s" % (d["k"], d.get("variant"))) if d["case"] == "crash" else "", "; ".join(d["problems"])[:400]),
+                          {"engine": engine, "args": args, "case": d["case"], "backend": d["backend"], "name": d["name"], "k": d.get("k"), "variant": d.get("variant")})))
+    return fails
+
+def backend(eng):
+    """C18: the node-store contract on the in-memory, file and S3 backends"""
+    work = os.path.join(BUILD, "work-%s" % eng.pid); os.makedirs(work, exist_ok=True)
+    n = 60 if eng.tier == "quick" else 600
+    args = "backend %d %d %s" % (eng.seed, n, work)
+    recs = run_cmd(eng, args)
+    fails = be_fails(recs, "backend", args)
+    cases = collections.Counter("%s/%s" % (d["backend"], d["case"]) for d in recs)
+    sizes = collections.Counter("0" if d["len"] == 0 else "1" if d["len"] == 1 else "<=400" if d["len"] <= 400 else ">=64K" for d in recs if d["case"] == "roundtrip")
+    return {"fails": fails, "evaluations": len(recs), "distinct": ["%s/%s/%s" % (d["backend"], d["case"], d["name"]) for d in recs],
+            "coverage": {"backend_cases": dict(cases), "payload_sizes": dict(sizes),
+                         "names_starting_with_dash_or_underscore": sum(1 for d in recs if d["name"][:1] in "-_")},
+            "samples": recs[:2]}
+
+def crash(eng):
+    """C17: every byte offset at which the write of a node file can stop (I/O error, and process killed)"""
+    work = os.path.join(BUILD, "work-%s" % eng.pid); os.makedirs(work, exist_ok=True)
+    n = 6 if eng.tier == "quick" else 40
+    args = "crash %d %d %s" % (eng.seed, n, work)
+    recs = run_cmd(eng, args)
+    fails = be_fails(recs, "crash", args)
+    var = collections.Counter(d["variant"] for d in recs)
+    lens = collections.Counter(d["len"] for d in recs)
+    return {"fails": fails, "evaluations": len(recs), "distinct": ["%s/%d/%d/%s" % (d["name"], d["len"], d["k"], d["variant"]) for d in recs],
+            "coverage": {"crash_points": len(recs), "variants": dict(var), "node_lengths": dict(lens),
+                         "exhaustive_over_offsets": "every k in 0..len for each generated node, both variants"},
+            "samples": recs[:2]}
+
+def replay_backend(eng, d):
+    recs = run_cmd(eng, d["attributes"]["args"])
+    fails = be_fails(recs, "backend", d["attributes"]["args"])
+    hit = [f for _, f in fails if f.extra["case"] == d["attributes"]["case"] and f.extra["backend"] == d["attributes"]["backend"]]
+    if hit:
+        print("reproduced: %s" % hit[0].msg[:300]); print("VIOLATION property=%s replay=%s" % (eng.pid, d.get("path", ""))); return 1
+    print("not reproduced"); return 0
+
+def replay_crash(eng, d):
+    recs = run_cmd(eng, d["attributes"]["args"])
+    fails = be_fails(recs, "crash", d["attributes"]["args"])
+    if fails:
+        print("reproduced: %s" % fails[0][1].msg[:300]); print("VIOLATION property=%s replay=%s" % (eng.pid, d.get("path", ""))); return 1
+    print("not reproduced"); return 0
+
 def replay(eng, d):
     if d.get("engine") == "faults":
         text = d["header"] + "\n" + "\n".join(d["ops"]) + "\n"
